@@ -209,6 +209,19 @@ func (ex *Explorer) Assume(c *Term) {
 	ex.decide(1, c)
 }
 
+// AssertI: interpreter-only assertion (natively a no-op): its trace line starts with '#' so that
+// it is ignored when interpreter and native traces are compared.
+func (ex *Explorer) AssertI(id string, c *Term) {
+	if ex.concrete {
+		if c.IsConst() {
+			ex.trace = append(ex.trace, fmt.Sprintf("#iassert %s %d", id, c.u))
+			return
+		}
+		panic(unsupported("symbolic assert in concrete mode"))
+	}
+	ex.Assert(id, c)
+}
+
 func (ex *Explorer) Assert(id string, c *Term) {
 	if ex.concrete {
 		if c.IsConst() {
